@@ -96,7 +96,7 @@ fn prompt_arrives_first(bin: &str, file: &str, stdin: &[u8]) -> bool {
         let mut rest = Vec::new();
         let _ = so.read_to_end(&mut rest);
     });
-    let first = rx.recv_timeout(std::time::Duration::from_millis(3000)).unwrap_or(false);
+    let first = rx.recv_timeout(std::time::Duration::from_millis(15000)).unwrap_or(false);
     {
         let mut si = child.stdin.take().unwrap();
         let _ = si.write_all(stdin);
